@@ -36,6 +36,7 @@ class U:
         self.c = c
         c.unit = self
         self.loop_specs: dict = {}
+        self.module_globals: dict = {}  # module name -> {global name: override} applied to every load of that module
         self.fn_infos: dict = {}
         self.heap: list[SObj] = []
         self.call_hooks: dict = {}
@@ -66,6 +67,10 @@ class U:
             if k not in base:
                 del g[k]
         g.update(base)
+        # unit-wide overrides for the module (they also reach helper methods followed through real=)
+        mg = getattr(self, "module_globals", {}).get(module)
+        if mg:
+            g.update(mg)
         if globals:
             g.update(globals)
         self.fn_infos[fid] = info
